@@ -240,6 +240,11 @@ def minMaxInf (isMin : Bool) (a b : Val) : Option Val :=
   | x, .enum "float" "-inf" => if isMin then some (.enum "float" "-inf") else some x
   | _, _ => Option.none
 
+/-- `[k1, v1, k2, v2, …]` as `[(k1, v1), (k2, v2), …]` (a trailing odd element is dropped). -/
+def pairUp : List Val → List Val
+  | k :: v :: rest => .tuple [k, v] :: pairUp rest
+  | _ => []
+
 /-- the builtins of the fragment. -/
 def builtin (f : String) (args : List Val) : Option Val :=
   match f, args with
@@ -287,6 +292,7 @@ def builtin (f : String) (args : List Val) : Option Val :=
       | _, _, _ => Option.none
   | "all", [v] => v.elems?.map (fun xs => .bool (xs.all (fun x => x.truthy == some true)))
   | "reversed", [v] => v.elems?.map (fun xs => .list xs.reverse)
+  | "dict_of", kvs => some (.list (pairUp kvs))   -- a dictionary display `{k1: v1, …}`: the list of its (key, value) pairs
   | "set", [] => some (.list [])                -- the empty set of a function that only adds to it and asks membership
   | "dict", [] => some (.list [])               -- the empty mapping (its only use in the fragment: membership, hooks for lookups)
   | "tqdm", v :: _ => some v                    -- progress bar: the iterable itself
